@@ -15,12 +15,16 @@ from vlib import core, httpgen as hg
 GRAPHS = ["G1", "G2", "G3", "G4", "G5", "G6", "G7", "G8", "G9", "G10", "G11"]
 KNOWN_DEVIATIONS = ["client.required_user_type_nil_deref", "views.required_nested_result_unchecked"]
 MAXLEN = 3
+# how a collection is declared (Views.tla `cd`): letter in the variant name, and the declaration handed to the design builder
+CD_LETTER = {"empty": "e", "desc": "d", "vtiny": "t", "vext": "x"}
+CD_DECL = {"plain": None, "empty": {}, "desc": {"desc": "a listing"}, "vtiny": {"views": ["tiny"]}, "vext": {"views": ["ext"]}}
 
 
 # ------------------------------------------------------------------ TLC -> graph descriptions and cases
 def vkey(c):
     """name of a variant: g2ls = graph G2, default view declared last, req mode sel (g1fbm3: third declaration order of the methods)"""
-    return "%s%s%s%s" % (c["g"].lower(), c["order"][0], c["req"][0], "m%d" % c["mo"] if c["mo"] != 1 else "")
+    return "%s%s%s%s%s" % (c["g"].lower(), c["order"][0], c["req"][0], "m%d" % c["mo"] if c["mo"] != 1 else "",
+                           "c" + CD_LETTER[c["cd"]] if c["cd"] != "plain" else "")
 
 
 # the known deviations only act where a required attribute has a result type: their predictions are only computed there
@@ -84,7 +88,10 @@ def types_of(desc):
                  for v in t["views"]]
         out.append({"name": tname(desc, t["name"]), "kind": "result", "attrs": attrs, "views": views})
         if t["name"] in colls or (desc["coll"] and t["name"] == "T"):
-            out.append({"name": tname(desc, t["name"]) + "Coll", "kind": "collection", "base": {"kind": "user", "ref": tname(desc, t["name"])}})
+            ct = {"name": tname(desc, t["name"]) + "Coll", "kind": "collection", "base": {"kind": "user", "ref": tname(desc, t["name"])}}
+            if CD_DECL[desc["cd"]] is not None:
+                ct["coll"] = CD_DECL[desc["cd"]]
+            out.append(ct)
     # a collection type is declared right after its element type (and so before the type that uses it)
     res = []
     for t in out:
@@ -111,16 +118,27 @@ def service_of(desc):
     return {"name": n, "methods": [meth("any") if v == "-" else meth("fix" + v, v) for v in desc["methods"]]}
 
 
-def design_of(g, descs):
+def design_name(desc):
+    """the design a variant lives in: its graph, or - for a collection whose declaration fixes the view - <graph><cd> (G3vext)"""
+    return desc["g"] + (desc["cd"] if desc["collFixed"] != "-" else "")
+
+
+def design_of(name, descs):
     """one design per graph (all its variants, one service each), so that a graph whose generated code does not compile
-    (C01's business) is set aside alone"""
-    mine = [descs[k] for k in sorted(descs) if descs[k]["g"] == g]
-    return {"api": {"name": "views" + g.lower()}, "types": [t for d in mine for t in types_of(d)], "services": [service_of(d) for d in mine]}
+    (C01's business) is set aside alone; the view-fixing collection declarations of a graph have designs of their own"""
+    mine = [descs[k] for k in sorted(descs) if design_name(descs[k]) == name]
+    return {"api": {"name": "views" + name.lower()}, "types": [t for d in mine for t in types_of(d)], "services": [service_of(d) for d in mine]}
 
 
-def design(g):
-    """the design of graph g with all its variants (interface used by C01)"""
-    return design_of(g, catalogue())
+def design_names(descs=None):
+    descs = catalogue() if descs is None else descs
+    names = set(design_name(d) for d in descs.values())
+    return [g for g in GRAPHS if g in names] + sorted(n for n in names if n not in GRAPHS)
+
+
+def design(name):
+    """the design called `name` (a graph G1.., or G3vtiny / G3vext / G7vtiny) with all its variants (interface used by C01)"""
+    return design_of(name, catalogue())
 
 
 # ------------------------------------------------------------------ values
@@ -174,8 +192,8 @@ def case_key(v):
 
 def scenario(v, desc, sid):
     c = v["cfg"]
-    value = value_from_paths(desc, set(v["val"]), set(v["bad"]))
-    meth = "Any" if c["fixed"] == "-" else "Fix" + c["fixed"]
+    value = value_from_paths(desc, set(v["sval"]), set(v["bad"]))
+    meth = "Any" if c["fixed"] == "-" or desc["collFixed"] != "-" else "Fix" + c["fixed"]
     s = {"id": sid, "service": vkey(c), "method": meth, "outcome": {"kind": "result", "value": value, "view": "" if c["chosen"] == "bogus" else c["chosen"]}}
     if c["chosen"] == "bogus":
         body = value_from_paths(desc, set(v["pred"]["wireKeys"]))
@@ -283,16 +301,24 @@ def run(ctx):
     unknown = set(d["g"] for d in descs.values()) - set(GRAPHS)
     if unknown:
         raise core.Infra("Views.tla has graphs the check does not know: %s" % sorted(unknown))
-    graphs = [g for g in GRAPHS if any(d["g"] == g for d in descs.values())]
+    graphs = design_names(descs)
     designs = [design_of(g, descs) for g in graphs]
     pl = hg.Pipeline(ctx, "gen-views")
     pl.generate(designs)
     bins = pl.build_runners(designs)
+    rejected = []
     for i, f in pl.failed.items():
+        if f[0] in ("dsl", "eval", "gen") and f[1] in ("error", "errors"):
+            # goa itself refuses (with errors, not a crash of our builder) a design the specification holds valid: a verdict
+            rejected.append((graphs[i], f))
+            continue
         if f[0] not in ("compile", "typecheck", "compile-runner"):
             raise core.Infra("the design of graph %s is not accepted or not generated (only code that does not compile is C01's business): %s" % (graphs[i], str(f)[:1500]))
         ctx.notes.append("graph %s set aside: its generated code does not compile (reported under C01): %s" % (graphs[i], str(f)[:400]))
     ctx.cov["graphs_set_aside"] = [graphs[i] for i in pl.failed]
+    for g, f in rejected:
+        ctx.violation("C08/%s/design-rejected" % g.lower(), "the design of graph %s (all its variants) is refused at stage %s: %s" % (g, f[0], str(f[2])[:1500]),
+                      {"graph": g, "stage": f[0], "detail": str(f[2])[:4000], "design": design_of(g, descs)})
     ctx.cov["variants"] = len(descs)
     if len(pl.failed) >= 3:
         raise core.Infra("almost no views design compiles: %s" % pl.failed)
@@ -307,7 +333,7 @@ def run(ctx):
     scen, meta = {}, {}
     for n, k in enumerate(order):
         v, preds = cases[k]
-        gi = graphs.index(v["cfg"]["g"])
+        gi = graphs.index(design_name(descs[vkey(v["cfg"])]))
         if gi in pl.failed:
             continue
         sid = "c%d" % n
